@@ -18,3 +18,10 @@ static int v_prefix(const char *h, const char *n, int ci)
 }
 char *strstr(const char *h, const char *n) { for (size_t i = 0;; i++) { if (v_prefix(h + i, n, 0)) return (char *)(h + i); if (!h[i]) return 0; } }
 char *strcasestr(const char *h, const char *n) { for (size_t i = 0;; i++) { if (v_prefix(h + i, n, 1)) return (char *)(h + i); if (!h[i]) return 0; } }
+/* memchr: reference loop (CBMC ships no body for it: a body-less call returns an arbitrary pointer and both outcomes are explored) */
+void *memchr(const void *s, int c, size_t n)
+{
+	const unsigned char *p = s;
+	for (size_t i = 0; i < n; i++) if (p[i] == (unsigned char)c) return (void *)(p + i);
+	return 0;
+}
